@@ -7,6 +7,7 @@ Provides durable  queue for hold hierarchical actions
 from __future__ import annotations  # so type hints of classes get resolved later
 
 from collections import deque
+from copy import deepcopy
 from typing import Any
 
 from hio import HierError
@@ -64,7 +65,8 @@ class Durq():
 
     def __iter__(self):
         """Makes iterator out of self by returning iterable ._deq"""
-        return iter(self._deq)
+        return iter(tuple(val if val.__dataclass_params__.frozen else deepcopy(val)
+                          for val in self._deq))  # ensure not mutable outside
 
     def __len__(self):
         """Supports len()"""
@@ -105,7 +107,8 @@ class Durq():
         for val in vals:
             if not isinstance(val, (RegDom, IceRegDom)):
                 raise HierError(f"Expected RegDom instance got {val}")
-
+        vals = tuple(val if val.__dataclass_params__.frozen else deepcopy(val)
+                     for val in vals)  # so can't mutate
         self._deq.extend(vals)
         if self.put(vals) is False:  # durable but put failed
             raise HierError(f"Mismatch between cache and durable at "
@@ -123,6 +126,8 @@ class Durq():
         if val is not None:
             if not isinstance(val, (RegDom, IceRegDom)):
                 raise HierError(f"Expected RegDom instance got {val}")
+            # so can't mutate
+            val = val if val.__dataclass_params__.frozen else deepcopy(val)
             self._deq.append(val)
             result = self.add(val)
             if result == False:  # durable but not added
